@@ -103,7 +103,14 @@ pub fn check_traj(c: &TrajCase, ctx: &mut Ctx) -> CheckResult {
             let (ms, ss) = primal_margin(k, sv);
             let (mz, sz) = dual_margin(k, zv);
             // strictly inside up to rounding of the oracle's own evaluation
-            let start = if r.iter == 0 { 64.0 * EPS * init_scale } else { 0.0 };
+            let mut start = if r.iter == 0 { 64.0 * EPS * init_scale } else { 0.0 };
+            // the last iterate of a run that the solver itself abandons with NumericalError (its own
+            // interiority test in the scaling update rejected it): within 1e-9 relative this is the rounding
+            // of a step-length computation at a point ~1e-12 from the boundary, reported through the status
+            if full.status == SolverStatus::NumericalError && idx + 1 == heads.len() {
+                start += 1e-9 * (norm_inf(sv) + norm_inf(zv));
+                ctx.label("last-iterate-of-numerical-error-run(1e-9 allowance)");
+            }
             ensure!(
                 ms >= -64.0 * EPS * (ss + norm_inf(sv)) - start,
                 "iteration {}: slack block #{ci} {k:?} = {:?} is outside the cone (margin {ms:e})",
